@@ -39,6 +39,9 @@ def _steps(pos):
     return d - np.round(d)
 
 
+TOL = 1e-11  # fractional units; round-off of a few thousand accumulated steps stays below 1e-12
+
+
 def run(case):
     path = np.array(case['path'], float)
     rigid = np.array(case['rigid'], float)  # (T, 3), rigid[0] == 0
@@ -85,21 +88,21 @@ def run(case):
     steps = path[1:] - path[:-1]
     want = np.concatenate([path[:1], path[:1] + np.cumsum(steps - steps[:, ref_idx].mean(axis=1, keepdims=True), axis=0)], axis=0)
     err = oracle.circ_diff(p0, want)
-    if err.max() > 1e-9:
+    if err.max() > TOL:
         t_, a_, k_ = np.unravel_index(np.argmax(err), err.shape)
         raise Violation('corrected-motion-equals-model', f'{kw}: frame {t_} atom {a_} axis {k_} deviates by {err.max():.3e} from path minus reference mean step')
 
     # clause: mean per-frame displacement of the reference species is zero in every frame
     mean_ref = _steps(p0)[:, ref_idx].mean(axis=1)
-    if T > 1 and np.abs(mean_ref).max() > 1e-9:
+    if T > 1 and np.abs(mean_ref).max() > TOL:
         raise Violation('reference-mean-displacement-zero', f'{kw}: mean reference displacement {np.abs(mean_ref).max():.3e} at frame {int(np.argmax(np.abs(mean_ref).max(axis=1))) + 1}')
     # also through the library's own drift() on the corrected trajectory
     d_after = np.array(gcall(c0.drift, **kw))
-    if not np.all(np.isfinite(d_after)) or np.abs(d_after).max() > 1e-9:
+    if not np.all(np.isfinite(d_after)) or np.abs(d_after).max() > TOL:
         raise Violation('residual-drift-zero', f'{kw}: drift() of the corrected trajectory is {np.abs(d_after).max()!r}')
 
     # clause: first frame, species, lattice, time step, metadata unchanged
-    if oracle.circ_diff(p0[0], path[0]).max() > 1e-9:
+    if oracle.circ_diff(p0[0], path[0]).max() > TOL:
         raise Violation('first-frame-unchanged', f'{oracle.circ_diff(p0[0], path[0]).max():.3e}')
     if [str(s) for s in c0.species] != [str(s) for s in t0.species]:
         raise Violation('species-unchanged', f'{c0.species} vs {t0.species}')
@@ -110,20 +113,20 @@ def run(case):
     if c0.metadata != t0.metadata:
         raise Violation('metadata-unchanged', f'{c0.metadata} vs {t0.metadata}')
     # source not altered
-    if oracle.circ_diff(np.array(gcall(lambda: t0.positions)), path).max() > 1e-9:
+    if oracle.circ_diff(np.array(gcall(lambda: t0.positions)), path).max() > TOL:
         raise Violation('source-unchanged', 'source trajectory positions changed by apply_drift_correction')
 
     # clause: idempotent
     c1 = gcall(c0.apply_drift_correction, **kw)
     p1 = np.array(gcall(lambda: c1.positions))
-    if oracle.circ_diff(p1, p0).max() > 1e-9:
+    if oracle.circ_diff(p1, p0).max() > TOL:
         raise Violation('idempotent', f'{kw}: second correction moves atoms by {oracle.circ_diff(p1, p0).max():.3e}')
 
     # clause: injected rigid drift is removed
     td = make(path + rigid[:, None, :])
     cd = gcall(td.apply_drift_correction, **kw)
     pd_ = np.array(gcall(lambda: cd.positions))
-    if oracle.circ_diff(pd_, p0).max() > 1e-9:
+    if oracle.circ_diff(pd_, p0).max() > TOL:
         raise Violation('injected-drift-removed', f'{kw}: corrected(X + d(t)) differs from corrected(X) by {oracle.circ_diff(pd_, p0).max():.3e}')
 
     # clause: floating S == fixed (all other species); none == all species
@@ -136,13 +139,13 @@ def run(case):
     if alt is not None:
         ca = gcall(t0.apply_drift_correction, **alt, clause='drift-correction-fails')
         pa = np.array(gcall(lambda: ca.positions))
-        if not np.all(np.isfinite(pa)) or oracle.circ_diff(pa, p0).max() > 1e-9:
+        if not np.all(np.isfinite(pa)) or oracle.circ_diff(pa, p0).max() > TOL:
             raise Violation('floating-equals-complementary-fixed', f'{kw} vs {alt}: positions differ by {oracle.circ_diff(pa, p0).max() if np.all(np.isfinite(pa)) else "nan"}')
         da, db = np.array(gcall(t0.drift, **kw)), np.array(gcall(t0.drift, **alt))
-        if da.shape != (T, 1, 3) or not np.all(np.isfinite(db)) or np.abs(da - db).max() > 1e-9:
+        if da.shape != (T, 1, 3) or not np.all(np.isfinite(db)) or np.abs(da - db).max() > TOL:
             raise Violation('floating-equals-complementary-fixed', f'drift() differs between {kw} and {alt}')
 
-    labels = [case['lattice']['family'], 'mode-' + mode, 'kind-' + case['ref_kind'], 'species-as-' + case['species_kind']]
+    labels = [case['lattice']['family'], 'mode-' + mode, 'kind-' + case['ref_kind'], 'species-as-' + case['species_kind']] + (['slow-motion'] if case.get('scale', 1.0) < 1e-6 else [])
     nz = bool(np.abs(rigid).max() > 0)
     return {'nontrivial': len(ref_idx) >= 2 and len(kinds) >= 2 and nz, 'labels': labels}
 
@@ -157,6 +160,13 @@ def drift_cases(draw, tier):
     u = draw(st.lists(st.floats(-1, 1), min_size=n, max_size=n))
     amp = draw(st.sampled_from([0.0, 0.01, 0.1, 0.29]))
     rigid = np.concatenate([np.zeros((1, 3)), np.cumsum(np.array(u).reshape(T - 1, 3) * amp, axis=0)], axis=0)
+    # slow motion: the whole motion (and the injected drift) scaled down so that per-frame drifts are far below 1e-8
+    scale = draw(st.sampled_from([1.0, 1.0, 1.0, 1e-3, 1e-7, 3e-9]))
+    if scale != 1.0:
+        pth = np.array(c['path'])
+        c['path'] = (pth[:1] + (pth - pth[:1]) * scale).tolist()
+        rigid = rigid * scale
+    c['scale'] = scale
     c['rigid'] = rigid.tolist()
     c['ref_mode'] = draw(st.sampled_from(['fixed', 'fixed', 'floating', 'floating', 'none']))
     c['ref_kind'] = draw(st.sampled_from(['str', 'list', 'tuple', 'set']))
